@@ -33,6 +33,17 @@ package ethereum
 //@   assert call:computeOperatorsIDsHash : [members-hash-is-over-the-operators-of-the-sorted-operating-members] len(arg0) == len(operatingMembersIndexes) && (forall k int :: 0 <= k && k < len(arg0) ==> arg0[k] == groupSelectionResult.OperatorsIDs[int(operatingMembersIndexes[k]) - 1]) && (forall a, b int :: 0 <= a && a < b && b < len(operatingMembersIndexes) ==> operatingMembersIndexes[a] <= operatingMembersIndexes[b])
 //@   loop 1 invariant len(operatingOperatorsIDs) == len(operatingMembersIndexes) && (forall k int :: 0 <= k && k < rangeidx1 ==> operatingOperatorsIDs[k] == groupSelectionResult.OperatorsIDs[int(operatingMembersIndexes[k]) - 1])
 
+// The hash the members sign is computed over the chain id, the same list of
+// misbehaved members (all of them, sorted ascending as the contract hashes
+// them) and the DKG start block.
+// (elliptic.Marshal returns the uncompressed form 0x04 || X || Y: at least one byte.)
+//@ assume func crypto/elliptic.Marshal
+//@   ensures len(result) >= 1
+//@ func TbtcChain.CalculateDKGResultSignatureHash
+//@   property C40
+//@   opt noframe 1
+//@   assert call:calculateDKGResultSignatureHash : [the-signed-hash-covers-the-chain-id-all-misbehaved-members-sorted-and-the-start-block] arg0 == tc.chainID && len(arg2) == len(misbehavedMembersIndexes) && (forall a, b int :: 0 <= a && a < b && b < len(arg2) ==> arg2[a] <= arg2[b]) && (startBlock <= 9223372036854775807 ==> bigval(arg3) == startBlock)
+
 // The wallet ID is the hash of exactly the 64-byte chain-format key
 // (bytes32 X || bytes32 Y), as Wallets.sol defines it.
 //@ func calculateWalletID
